@@ -264,13 +264,25 @@ def fact_str(r):
     return str(r)
 
 
+def edge_facts(b, e):
+    """the relations known at an edge, in the term space its signature is written in"""
+    if e.get("lifted") and b.kind == "Closure":
+        return effects.facts_in_parent(effects.Effects(b.prog), b, e["pos"])
+    return b.facts_at(e["pos"])
+
+
 def table_lookup(b, fnkey, e):
     for row in T.EDGES:
         frx, krx, srx, cat, reason = row[:5]
-        if re.search(frx, fnkey) and re.fullmatch(krx, e["kind"]) and re.search(srx, e["sig"]):
+        m = re.search(srx, e["sig"])
+        if re.search(frx, fnkey) and re.fullmatch(krx, e["kind"]) and m:
             if len(row) > 5:
-                fs = "; ".join(fact_str(r) for r in b.facts_at(e["pos"]))
-                if not re.search(row[5], fs):
+                fs = "; ".join(fact_str(r) for r in edge_facts(b, e))
+                need = row[5]
+                # `{n}` in the needed fact stands for the named group (?P<n>..) of the signature: the SAME term must be guarded
+                for g, v in (m.groupdict() or {}).items():
+                    need = need.replace("{" + g + "}", re.escape(v or ""))
+                if not re.search(need, fs):
                     continue
             return row
     return None
